@@ -6,6 +6,18 @@ Oracle:  vk.ref.c16_htmlcheck (html.parser based, no skoolkit import): every rel
          tree, every fragment names an id of the target page; every instruction of every non-ignored entry has
          exactly one element carrying its AddressAnchor id on the entry's page (and every entry exactly one on each
          memory map that lists it); no path opened for writing twice in one invocation.
+
+Defects of the unchanged tree, classified by mechanism (predicates: expected_anchor_count / classify_dangling):
+  C16-dup-id-single-page-entry    -1 / AsmSinglePage=1: the asm_single_page template puts the entry anchor on the entry <div>
+                                  and on the <span> of its first instruction
+  C16-dup-id-mid-block-comment    asm and asm_single_page templates: an instruction with a mid-block (or start) comment gets
+                                  the anchor <span> in the comment row and again in the address cell
+  C16-single-page-remote-operand  -1 / AsmSinglePage=1: an operand that addresses an @remote entry is linked as "#anchor" on the
+                                  current page; the instruction is on the other disassembly's page
+  C16-link-map-anchor-other-code  #LINK(Map#address) in a secondary skool file: the address is looked up in the secondary file,
+                                  so the anchor is not converted to AddressAnchor and dangles when that format is not {address}
+Anything else (a different count, a dangling reference that does not satisfy a predicate, a double write) is an
+unclassified violation.
 """
 import os
 import posixpath
@@ -163,7 +175,8 @@ def run_steps(shard, workdir, skoolfile, argv, steps, odir):
                 a += ['-w', st]
             a.append(skoolfile)
             with recording(odir) as writes:
-                r = harness.run_tool('skool2html', a)
+                with harness.time_limit(120):       # a hang becomes a failed (skipped) case, never a verdict
+                    r = harness.run_tool('skool2html', a)
             shard.inc('events:skool2html_runs')
             logs.append(writes)
             if not r.ok:
@@ -271,8 +284,6 @@ def check_case(shard, files, argv, steps, odir, skoolfile, model, workdir='case'
     rp = {'files': _enc_files(files), 'argv': argv, 'steps': steps, 'odir': odir, 'skoolfile': skoolfile, 'model': model}
     if not ok:
         shard.skip('skool2html failed: ' + (r.exc.split(':')[0] if r.exc else 'exit %s' % r.code))
-        if os.environ.get('C16_DEV'):
-            print('   FAIL', r.describe()[:400], (r.tb or '')[-700:] if os.environ.get('C16_DEV') == '2' else '')
         if shard.counters.get('dbg:failures_sampled', 0) < 3:
             shard.inc('dbg:failures_sampled')
             shard.sample({'tool_failure': r.describe(), 'tb': (r.tb or '')[-600:], 'argv': argv, 'steps': steps})
@@ -296,10 +307,41 @@ def check_case(shard, files, argv, steps, odir, skoolfile, model, workdir='case'
         shard.violation('%s (%d in this tree); argv=%s' % (ws[0], len(ws), argv), dict(rp, classified=fid), fid)
     return ('violated' if plain else 'finding'), stats, rp
 
+WITNESS_FILES = {
+    'main.skool': '@remote=load:49152\n; Routine\nc32768 CALL 49152\n; Mid-block comment\n*32771 JR 32771\n',
+    'load.skool': '; Loader, see #LINK(MemoryMap#32768)(the routine on the main map)\nc49152 RET\n',
+    'main.ref': '[OtherCode:load]\n[Game]\nAddressAnchor={address:04x}\n',
+}
+
+def witness_cases():
+    """The minimal input on which all four recorded mechanisms show (multi-page: mid-block duplicate and #LINK map anchor;
+    -1: single-page duplicate and @remote operand). Replayed first by shard 0 of every run."""
+    for single in (False, True):
+        model = {
+            'single_page': single, 'anchor_fmt': '{address:04x}', 'index': 'index.html',
+            'codes': {
+                'main': {'entries': [{'addr': 32768, 'ctl': 'c', 'page': 'asm.html' if single else 'asm/32768.html', 'ins': [32768, 32771],
+                                      'mid': [32771], 'points': [32771]}],
+                         'index': None, 'single': 'asm.html', 'own': [32768, 32771], 'remote': {'49152': 'load'}},
+                'load': {'entries': [{'addr': 49152, 'ctl': 'c', 'page': 'load/asm.html' if single else 'load/49152.html', 'ins': [49152],
+                                      'mid': [], 'points': []}],
+                         'index': 'load/load.html', 'single': 'load/asm.html', 'own': [49152], 'remote': {}},
+            },
+            'maps': {'MemoryMap': {'path': 'maps/all.html', 'addrs': [32768], 'main': True},
+                     'RoutinesMap': {'path': 'maps/routines.html', 'addrs': [32768], 'main': True},
+                     'load-Index': {'path': 'load/load.html', 'addrs': [49152]}},
+        }
+        yield dict(WITNESS_FILES), (['-q', '-1'] if single else ['-q']), [None], 'main', 'main.skool', model
+
 DEFAULT_FEATURES = {'R:own', 'LINK', 'image', 'operand:entry', 'operand:instruction', 'operand:self', 'operand:random', 'operand:mid-instruction'}
 
 def run(shard, spec):
     n = N_CASES[shard.tier]
+    if spec['shard'] == 0:
+        for k, (files, argv, steps, odir, skoolfile, model) in enumerate(witness_cases()):
+            status, stats, rp = check_case(shard, files, argv, steps, odir, skoolfile, model)
+            shard.case(('witness', k), False)
+            shard.hist('status', 'witness:' + status)
     for case_no in range(spec['shard'], n, spec['of']):
         rng = shard.rng('case', case_no)
         c = gen.gen_case(rng)
@@ -350,5 +392,7 @@ TECHNIQUE = ('boundary recorder on the real skool2html entry point (in-process) 
 LEVEL_TEXT = ('Each case writes generated skool/ref/resource files, runs skoolkit.skool2html.main (once, or twice with complementary -w subsets), '
               'then parses every HTML file of the tree and follows every relative href/src and fragment; anchors of all instructions and map '
               'entries are counted against the configured AddressAnchor; double writes are taken from the audit log. Sampled exploration.')
-LEVEL_NOTE = ('Inputs are well-formed by construction (links name things that exist); tool failures are skipped and bounded at 5%. Two duplicate-id '
-              'mechanisms of the default templates are classified as findings by mechanism, any other anchor count is a violation.')
+LEVEL_NOTE = ('Inputs are well-formed by construction (links name things that exist); tool failures are skipped and bounded at 5%. Four mechanisms '
+              'seen on the unchanged tree (two duplicate-id shapes of the default templates, the single-page @remote operand link, the unconverted '
+              '#LINK map anchor in a secondary disassembly) are classified as findings by predicate; any other anchor count, dangling reference or '
+              'double write is a violation.')
